@@ -348,6 +348,81 @@ pub fn c04_case(rng: &mut Rng, max_objects: usize) -> String {
         // difficulty attributes of a result from attributes are those attributes
         let from_attrs = spec.apply(Performance::new(attrs.clone()).difficulty(d.clone())).calculate();
         f.eq("embedded attrs of the attrs path", &diff_json(&embedded(&from_attrs)), &diff_json(&attrs));
+        // the accessor methods of the attribute types say what the fields say
+        use rosu_pp::any::{DifficultyAttributes as DA, PerformanceAttributes as PA};
+        let (want_stars, want_combo, want_conv, want_objects): (f64, u32, bool, Option<u32>) = match &attrs {
+            DA::Osu(a) => (a.stars, a.max_combo, false, Some(a.n_circles + a.n_sliders + a.n_spinners)),
+            DA::Taiko(a) => (a.stars, a.max_combo, a.is_convert, None),
+            DA::Catch(a) => (a.stars, a.n_fruits + a.n_droplets, a.is_convert, None),
+            DA::Mania(a) => (a.stars, a.max_combo, a.is_convert, Some(a.n_objects)),
+        };
+        let (got_stars, got_combo, got_conv, got_objects) = match &attrs {
+            DA::Osu(a) => (a.stars, a.max_combo(), false, Some(a.n_objects())),
+            DA::Taiko(a) => (a.stars, a.max_combo(), a.is_convert(), None),
+            DA::Catch(a) => (a.stars, a.max_combo(), a.is_convert(), None),
+            DA::Mania(a) => (a.stars, a.max_combo(), a.is_convert(), Some(a.n_objects())),
+        };
+        f.holds("difficulty attribute accessors (stars / max_combo / is_convert / n_objects) == fields",
+                got_stars.to_bits() == want_stars.to_bits() && got_combo == want_combo && got_conv == want_conv && got_objects == want_objects,
+                &format!("{got_stars} {got_combo} {got_conv} {got_objects:?} vs {want_stars} {want_combo} {want_conv} {want_objects:?}"));
+        f.holds("DifficultyAttributes::{stars, max_combo} == the mode's accessors",
+                attrs.stars().to_bits() == want_stars.to_bits() && attrs.max_combo() == want_combo,
+                &format!("{} {} vs {want_stars} {want_combo}", attrs.stars(), attrs.max_combo()));
+        let (pp_f, p_stars, p_combo, p_inner_pp): (f64, f64, u32, f64) = match &from_ref {
+            PA::Osu(p) => (p.pp, p.stars(), p.max_combo(), p.pp()),
+            PA::Taiko(p) => (p.pp, p.stars(), p.max_combo(), p.pp()),
+            PA::Catch(p) => (p.pp, p.stars(), p.max_combo(), p.pp()),
+            PA::Mania(p) => (p.pp, p.stars(), p.max_combo(), p.pp()),
+        };
+        f.holds("performance attribute accessors (pp / stars / max_combo) == fields of the result and of its difficulty part",
+                p_inner_pp.to_bits() == pp_f.to_bits() && from_ref.pp().to_bits() == pp_f.to_bits()
+                    && p_stars.to_bits() == want_stars.to_bits() && from_ref.stars().to_bits() == want_stars.to_bits()
+                    && p_combo == want_combo && from_ref.max_combo() == want_combo,
+                &format!("pp {p_inner_pp}/{}/{pp_f} stars {p_stars}/{}/{want_stars} combo {p_combo}/{}/{want_combo}",
+                         from_ref.pp(), from_ref.stars(), from_ref.max_combo()));
+        f.eq("DifficultyAttributes::from(performance attributes) == embedded difficulty attributes",
+             &diff_json(&DA::from(from_ref.clone())), &diff_json(&embedded(&from_ref)));
+        // mode-specific attrs.performance() and Mode::performance(map)
+        let via_mode_attrs = match attrs.clone() {
+            DA::Osu(a) => spec.apply(Performance::Osu(a.performance()).difficulty(d.clone())).calculate().json(),
+            DA::Taiko(a) => spec.apply(Performance::Taiko(a.performance()).difficulty(d.clone())).calculate().json(),
+            DA::Catch(a) => spec.apply(Performance::Catch(a.performance()).difficulty(d.clone())).calculate().json(),
+            DA::Mania(a) => spec.apply(Performance::Mania(a.performance()).difficulty(d.clone())).calculate().json(),
+        };
+        f.eq("mode attrs.performance()", &via_mode_attrs, &want);
+        let via_mode_perf_attrs = match from_ref.clone() {
+            PA::Osu(a) => spec.apply(Performance::Osu(a.performance()).difficulty(d.clone())).calculate().json(),
+            PA::Taiko(a) => spec.apply(Performance::Taiko(a.performance()).difficulty(d.clone())).calculate().json(),
+            PA::Catch(a) => spec.apply(Performance::Catch(a.performance()).difficulty(d.clone())).calculate().json(),
+            PA::Mania(a) => spec.apply(Performance::Mania(a.performance()).difficulty(d.clone())).calculate().json(),
+        };
+        f.eq("mode perf_attrs.performance()", &via_mode_perf_attrs, &want);
+        use rosu_pp::model::mode::IGameMode;
+        let via_igm = match c.target {
+            0 => spec.apply(Performance::Osu(Osu::performance(&c.conv)).difficulty(d.clone())).calculate().json(),
+            1 => spec.apply(Performance::Taiko(Taiko::performance(&c.conv)).difficulty(d.clone())).calculate().json(),
+            2 => spec.apply(Performance::Catch(Catch::performance(&c.conv)).difficulty(d.clone())).calculate().json(),
+            _ => spec.apply(Performance::Mania(Mania::performance(&c.conv)).difficulty(d.clone())).calculate().json(),
+        };
+        f.eq("IGameMode::performance(map)", &via_igm, &want);
+        // Mode::Performance::try_new
+        let tn = match c.target {
+            0 => rosu_pp::osu::OsuPerformance::try_new(&c.conv).map(|p| spec.apply(Performance::Osu(p).difficulty(d.clone())).calculate().json()),
+            1 => rosu_pp::taiko::TaikoPerformance::try_new(&c.conv).map(|p| spec.apply(Performance::Taiko(p).difficulty(d.clone())).calculate().json()),
+            2 => rosu_pp::catch::CatchPerformance::try_new(&c.conv).map(|p| spec.apply(Performance::Catch(p).difficulty(d.clone())).calculate().json()),
+            _ => rosu_pp::mania::ManiaPerformance::try_new(&c.conv).map(|p| spec.apply(Performance::Mania(p).difficulty(d.clone())).calculate().json()),
+        };
+        f.eq("Mode::Performance::try_new(&map)", &tn.unwrap_or_else(|| "None".into()), &want);
+        // ScoreState::total_hits agrees with the mode state's
+        let gs = spec.apply(Performance::new(&c.conv).difficulty(d.clone())).generate_state();
+        let th = gs.total_hits(mode_of(c.target));
+        let th_mode = match c.target {
+            0 => rosu_pp::osu::OsuScoreState::from(gs.clone()).total_hits(),
+            1 => rosu_pp::taiko::TaikoScoreState::from(gs.clone()).total_hits(),
+            2 => rosu_pp::catch::CatchScoreState::from(gs.clone()).total_hits(),
+            _ => rosu_pp::mania::ManiaScoreState::from(gs.clone()).total_hits(),
+        };
+        f.holds("ScoreState::total_hits(mode) == the mode state's total_hits", th == th_mode, &format!("{th} vs {th_mode}"));
     })
 }
 
